@@ -372,8 +372,14 @@ func genC19(seed int64, tier string) []caseOut {
 	if tier == "thorough" {
 		nh = 1500
 	}
-	for i := 0; i < nh; i++ {
+	scripts := systematicScripts("any") // every failure class of every operation type, whatever the seed draws
+	for i := 0; i < nh+len(scripts); i++ {
+		histScript = nil
+		if i >= nh {
+			histScript = scripts[i-nh]
+		}
 		hc, cfgs := genHistory(r, "any", 6)
+		histScript = nil
 		rm := &protocol.ResolutionModel{}
 		composer := doccomposer.New()
 		for si, st := range hc.Steps {
@@ -391,6 +397,16 @@ func genC19(seed int64, tier string) []caseOut {
 			})
 			if class >= 2 || r.Intn(10) == 0 {
 				record("history-step:"+st.Label, "Applier.Apply-"+st.Type, st.Bytes, class, detail)
+			}
+			for _, acc := range []struct {
+				name string
+				f    func() error
+			}{{"Parser.GetRevealValue", func() error { _, e := parser.GetRevealValue(st.Bytes); return e }},
+				{"Parser.GetCommitment", func() error { _, e := parser.GetCommitment(st.Bytes); return e }},
+				{"Parser.Parse", func() error { _, e := parser.Parse("did:ns", st.Bytes); return e }}} {
+				if c2, d2 := guarded(acc.f); c2 >= 2 {
+					record("history-step:"+st.Label, acc.name, st.Bytes, c2, d2)
+				}
 			}
 			if class == 0 && res != nil {
 				rm = res
